@@ -284,7 +284,9 @@ theorem retryClear_items (r : R) (id : Nat) : (r.retryClear id).items = r.items.
 
 theorem retryAdd_items (r : R) (o : RObj) (a b : Nat) (d : Bool) :
     ∃ n, (r.retryAdd o a b d).items = r.items.filter (·.id ≠ o.id) ++
-      [{ id := o.id, obj := o, rev := a, origRev := b, delete := d, retryAt := r.now + backoff r.cfg.minB r.cfg.maxB n,
+      [{ id := o.id, obj := o, rev := a,
+         origRev := (match r.items.find? (·.id = o.id) with | some i => i.origRev | none => b),
+         delete := d, retryAt := r.now + backoff r.cfg.minB r.cfg.maxB n,
          numRetries := n, inQueue := true, inRevQueue := true }] := ⟨_, rfl⟩
 
 theorem retryPop_items (r : R) (h : Item) (hh : r.head = some h) :
